@@ -47,10 +47,16 @@ func (a *SparseReal32Vector) EQUALS(b *SparseReal32Vector, epsilon float64) bool
   for it := a.JOINT_ITERATOR_(b); it.Ok(); it.Next() {
     s1, s2 := it.GET()
     if s1 == nil {
-      return false
+      if !ConstFloat32(0.0).Equals(s2, epsilon) {
+        return false
+      }
+      continue
     }
     if s2 == nil {
-      return false
+      if !s1.Equals(ConstFloat32(0.0), epsilon) {
+        return false
+      }
+      continue
     }
     if !s1.EQUALS(s2, epsilon) {
       return false
